@@ -233,7 +233,7 @@ pub struct Report {
 pub fn expected_probes(prop: &str) -> &'static [&'static str] {
     match prop {
         "C01" => &["zero-gates", "one-gate", "gates-power-of-two", "gates-one-past-power-of-two", "gates-one-short-of-power-of-two", "gates-only-in-phase2", "phase2-present-gate-free", "prover-capacity-at-threshold", "verifier-capacity-at-threshold", "non-default-bases", "pending-crossed-phase-boundary", "commit-after-constrain", "commit-after-gate", "gate-while-pending", "pair-closed-after-other-gates", "constraint-constants-only", "constraint-committed-only", "zero-coefficient-term", "forward-reference-in-constraint", "interleaved-sessions-equal-solo"],
-        "C02" => &["cell:F10-wire-value:p1:unsatisfied", "cell:F10-wire-value:p2:unsatisfied", "cell:F10-gate-out:p1:unsatisfied", "cell:F10-gate-out:p2:unsatisfied", "cell:F10-gate-left:p1:unsatisfied", "cell:F10-gate-left:p2:unsatisfied", "cell:F10-gate-right:p1:unsatisfied", "cell:F10-gate-right:p2:unsatisfied", "cell:F10-constant:p1:unsatisfied", "cell:F10-constant:p2:unsatisfied", "cell:F10-commit-value:p1:unsatisfied", "cell:F10-wire-value:p1:still-satisfied", "batch-leg-rejected", "batch-pair-with-complementary-error"],
+        "C02" => &["cell:F10-wire-value:p1:unsatisfied", "cell:F10-wire-value:p2:unsatisfied", "cell:F10-gate-out:p1:unsatisfied", "cell:F10-gate-out:p2:unsatisfied", "cell:F10-gate-left:p1:unsatisfied", "cell:F10-gate-left:p2:unsatisfied", "cell:F10-gate-right:p1:unsatisfied", "cell:F10-gate-right:p2:unsatisfied", "cell:F10-constant:p1:unsatisfied", "cell:F10-constant:p2:unsatisfied", "cell:F10-commit-value:p1:unsatisfied", "cell:F10-wire-value:p1:still-satisfied", "cell:F10-gate-out-pair-cancelling:p1:unsatisfied", "batch-leg-rejected", "batch-pair-with-complementary-error"],
         "C03" => &["agree:accept:all", "adversary:agree:accept:a1", "adversary:agree:reject:a0", "adversary:identity-commitment-produced", "relation-b-repaired", "adversary:mass-move:u-block-empty", "adversary:mass-move:u-block-non-empty"],
         "C04" => &["rejected-at-decoding", "tampered-proof-still-decoded", "decoded-to-identical-object"],
         "C05" => &["twin-accepted", "misdelivery-same-bound-context(no-demand)"],
